@@ -36,6 +36,9 @@ def run(chk, binary):
     for _ in range(n):
         text = rng.choice(V.TEXTS)
         prefix = [V.any_cmd(rng) for _ in range(rng.choice([0, 0, 1, 1, 2, 3]))]   # reach a cursor by earlier commands
+        if rng.random() < 0.15:
+            # an edit taken back (and perhaps redone) just before: the text is an earlier one again, the tables must be too
+            prefix = prefix + [V.edit(rng), "u"] + (["<c-r>"] if rng.random() < 0.4 else [])
         r = rng.random()
         cmd = V.nonedit(rng) if r < 0.8 else V.edit(rng)
         if r < 0.08:
